@@ -66,6 +66,10 @@ pub enum ModelEvaluatorError {
   DecisionTableWithoutOutputClauses,
   #[error("number of entries in a rule is less than the number of clauses in decision table")]
   RuleEntriesDoNotMatchClauses,
+  #[error("cyclic requirements, element with identifier `{0}` depends on itself")]
+  CyclicRequirements(String),
+  #[error("cyclic item definitions, item definition `{0}` refers to itself")]
+  CyclicItemDefinitions(String),
   #[error("read lock failed with reason '{0}'")]
   ReadLockFailed(String),
   #[error("write lock failed with reason '{0}'")]
@@ -136,6 +140,14 @@ pub fn err_decision_table_without_output_clauses() -> DmntkError {
 
 pub fn err_rule_entries_do_not_match_clauses() -> DmntkError {
   ModelEvaluatorError::RuleEntriesDoNotMatchClauses.into()
+}
+
+pub fn err_cyclic_requirements(id: &str) -> DmntkError {
+  ModelEvaluatorError::CyclicRequirements(id.to_string()).into()
+}
+
+pub fn err_cyclic_item_definitions(name: &str) -> DmntkError {
+  ModelEvaluatorError::CyclicItemDefinitions(name.to_string()).into()
 }
 
 pub fn err_read_lock_failed(reason: impl ToString) -> DmntkError {
